@@ -1,6 +1,6 @@
 SPECIFICATION Spec
 CONSTANTS
-  N = 2
+  NG = 2
   MaxCalls = 2
   ShapeNames <- DomainShapes
   AllowReg = FALSE
@@ -9,5 +9,5 @@ CONSTANTS
   CopyArgs = FALSE
   HtmlDep = FALSE
 VIEW View
-INVARIANTS Deterministic SharedReadOnly NoBlocking CompletesAlone LockSane
+INVARIANTS Deterministic SharedReadOnly NoBlocking LockSane
 CHECK_DEADLOCK TRUE
